@@ -15,6 +15,7 @@ class Transc (α : Type) extends Add α, Sub α, Mul α, Div α, Neg α where
   log : α → α
   log10 : α → α
   sqrt : α → α
+  sin : α → α
   gamma : α → α
   pi : α
   max2 : α → α → α
@@ -52,6 +53,7 @@ instance : Transc Float where
   log := Float.log
   log10 := Float.log10
   sqrt := Float.sqrt
+  sin := Float.sin
   gamma := lanczosGamma
   pi := 3.141592653589793
   max2 a b := if a < b then b else a
